@@ -132,8 +132,9 @@ fn cmd_longgame(tier: &str, seed: u64, out: &str, replay_dir: &str, turns_overri
     let r = match h.join() {
         Ok(r) => r,
         Err(_) => {
-            eprintln!("HARNESS-ERROR: long game thread panicked");
-            return 2;
+            // the generator reports its own problems as Err; a panic comes from an engine call
+            eprintln!("note: the engine panicked in the long game ({}); that is C19's finding, this part decides nothing", crate::ctx::last_panic_take().unwrap_or_default());
+            Err("PANIC".to_string())
         }
     };
     let mut exit = 0;
@@ -148,6 +149,10 @@ fn cmd_longgame(tier: &str, seed: u64, out: &str, replay_dir: &str, turns_overri
             println!("violation: property C03 in a long capture-free game: {}", e);
             println!("VIOLATION property=C03 replay={}", path);
             exit = 1;
+            0
+        }
+        Err(e) if e == "PANIC" => {
+            println!("C03 long-game part: the engine panicked during the game; nothing decided by this part (C19 plays the same long games and reports the panic)");
             0
         }
         Err(e) if e == "TIMEOUT" => {
@@ -451,8 +456,9 @@ fn cmd_longrep(prop: &str, tier: &str, seed: u64, out: &str, replay_dir: &str) -
                 return 2;
             }
             Err(_) => {
-                eprintln!("HARNESS-ERROR: long-range repetition thread panicked");
-                return 2;
+                // the generator reports its own problems as Err; a panic comes from an engine call
+                eprintln!("note: the engine panicked in a long-range repetition walk of {} turns; that is C19's finding, this walk decides nothing", n);
+                skipped.push(n);
             }
         }
     }
